@@ -25,7 +25,8 @@ RULE = ("histories of 2-6 phases over one, two or three files used alternately i
 TRUSTED = ["Coq 8.16.1 kernel", "extraction (ExtrOcamlBasic only; Z/positive/nat inductive)",
            "translator gen/gen_consts.py + plugin gen/plugins/an_tables.py (constants, AN_CREATE_KEY/AN_KEY2REF/"
            "AN_KEY2TYPE, type<->tag switch tables, UINT16ENCODE/DECODE byte expressions, buffer-truncation conditions, the "
-           "DFANIopen same-file test with strncmp/strlen mapped to coq/ANLang.v)",
+           "DFANIopen same-file test with strncmp/strlen mapped to coq/ANLang.v, the cursor/flag/restart conditions of "
+           "DFANIgetfannlen/DFANIgetfann, the ANentry field ANget_tagref reports)",
            "OCaml drivers extract/anspec_main.ml, extract/anmodel_main.ml; C harness harness/drive_an.c; generator and "
            "comparison in checks/C11.py",
            "modelled, not verified: the element layer under the annotations (Hstartwrite/Hwrite/Hread/Hlength/"
@@ -34,7 +35,8 @@ TRUSTED = ["Coq 8.16.1 kernel", "extraction (ExtrOcamlBasic only; Z/positive/nat
 ASSUMPTIONS = ["domain: annotation texts are non-empty; label texts contain no NUL byte; read buffers have >= 1 byte "
                "(DFANlablist: >= 2); the DFAN calls are made while no AN session is open on the file and DFANclear() "
                "is called when an AN session ends (documented usage after a file was changed through another "
-               "interface); one AN session per file at a time; file names are C strings shorter than DF_MAXFNLEN; refs stay far "
+               "interface); an enumeration of file labels/descriptions is continued with isfirst = 0 only on the same file and "
+               "only if no AN session, DFANaddfid/fds or whole enumeration came in between; one AN session per file at a time; file names are C strings shorter than DF_MAXFNLEN; refs stay far "
                "below 65535 (C20 covers the limit)",
                "where an object carries several labels/descriptions the single-annotation DFAN calls may return any "
                "of them (the model M says which one)"]
